@@ -373,6 +373,10 @@ pub enum EvSpec {
     CmdSendOpen(Vec<ReqSpec>),
     CmdSendCancel(Vec<ReqSpec>),
     Shutdown,
+    /// a full account snapshot of one exchange (what an execution link sends when it (re)initialises):
+    /// balances of some of the exchange's assets, the open orders (cid selector, instrument, filled)
+    /// of the exchange listed per instrument, and `bare` instruments listed without any order
+    AccountSnapshot { ex: u8, balances: Vec<(u8, u32)>, orders: Vec<(u16, u8, u8)>, bare: Vec<u8>, dt: i32 },
 }
 
 /// Order quantity used by every generated order request / report.
@@ -537,6 +541,44 @@ impl<'a> Resolver<'a> {
                     kind: AccountEventKind::BalanceSnapshot(Snapshot(AssetBalance { asset: AssetIndex(idx), balance: Balance::new(v, v), time_exchange: t })),
                 }))
             }
+            EvSpec::AccountSnapshot { ex, balances, orders, bare, dt } => {
+                let ex_i = ExchangeIndex(*ex as usize % self.indexed.exchanges().len());
+                let ex_id = self.indexed.exchanges()[ex_i.index()].value;
+                let t = self.time(*dt);
+                let own_assets: Vec<usize> = (0..self.indexed.assets().len()).filter(|i| self.indexed.assets()[*i].value.exchange == ex_id).collect();
+                let mut bals: Vec<AssetBalance<AssetIndex>> = Vec::new();
+                for (a, total) in balances {
+                    if own_assets.is_empty() {
+                        break;
+                    }
+                    let idx = AssetIndex(own_assets[*a as usize % own_assets.len()]);
+                    if !bals.iter().any(|b| b.asset == idx) {
+                        let v = Decimal::from(*total);
+                        bals.push(AssetBalance { asset: idx, balance: Balance::new(v, v), time_exchange: t });
+                    }
+                }
+                let mut instruments: Vec<barter_execution::InstrumentAccountSnapshot<ExchangeIndex, AssetIndex, InstrumentIndex>> = Vec::new();
+                for b in bare {
+                    let inst = self.inst(*b);
+                    if self.exchange_of(inst) == ex_i && !instruments.iter().any(|s| s.instrument == inst) {
+                        instruments.push(barter_execution::InstrumentAccountSnapshot { instrument: inst, orders: vec![] });
+                    }
+                }
+                for (cid, inst, filled) in orders {
+                    let (cidnum, inst) = self.target(*cid, *inst);
+                    if self.exchange_of(inst) != ex_i {
+                        continue;
+                    }
+                    let open = Open { id: OrderId::new(format!("oid-{cidnum}")), time_exchange: t, filled_quantity: Decimal::from((*filled as u32).min(ORDER_QTY - 1)) };
+                    let order: Order<ExchangeIndex, InstrumentIndex, OrderState<AssetIndex, InstrumentIndex>> = self.order(cidnum, inst, true, OrderState::active(open));
+                    match instruments.iter_mut().find(|s| s.instrument == inst) {
+                        Some(s) if s.orders.iter().any(|o| o.key.cid == order.key.cid) => {}
+                        Some(s) => s.orders.push(order),
+                        None => instruments.push(barter_execution::InstrumentAccountSnapshot { instrument: inst, orders: vec![order] }),
+                    }
+                }
+                EngineEvent::Account(AccountStreamEvent::Item(AccountEvent { exchange: ex_i, kind: AccountEventKind::Snapshot(barter_execution::AccountSnapshot { exchange: ex_i, balances: bals, instruments }) }))
+            }
             EvSpec::OrderOpen { cid, inst, buy, filled, dt } => {
                 let (cidnum, inst) = self.target(*cid, *inst);
                 let cid = &cidnum;
@@ -679,6 +721,11 @@ pub mod strat {
             prop::collection::vec(req_spec(false, allow_unknown), 1..4).prop_map(EvSpec::CmdSendOpen),
             prop::collection::vec(req_spec(false, allow_unknown), 1..4).prop_map(EvSpec::CmdSendCancel),
         ]
+    }
+
+    pub fn account_snapshot() -> impl Strategy<Value = EvSpec> {
+        (0u8..5, prop::collection::vec((0u8..12, 0u32..100_000), 0..3), prop::collection::vec((0u16..16, 0u8..8, 0u8..4), 0..3), prop::collection::vec(0u8..8, 0..3), dt())
+            .prop_map(|(ex, balances, orders, bare, dt)| EvSpec::AccountSnapshot { ex, balances, orders, bare, dt })
     }
 
     pub fn any_event(allow_unknown: bool) -> impl Strategy<Value = EvSpec> {
